@@ -1,5 +1,5 @@
-(* SearchPv3.v: every line AnalyzeAll lists replays legally from p (precise options, no table, any sort setting; a call cancelled at k:
-   as long as the flag was not seen set when AnalyzeAll returns).  SearchAll2's loop invariant with SearchPv1's line invariant: a listed
+(* SearchPv3.v: every line AnalyzeAll lists replays legally from p (precise options, no table, any sort setting; the repaired code at EVERY
+   cancellation point k, the code before the repair as long as the flag was not seen set when AnalyzeAll returns).  SearchAll2's loop invariant with SearchPv1's line invariant: a listed
    move's child search returned exactly the value, which lies strictly inside its window (-v-1, -v+1), so its line replays from the child. *)
 From Coq Require Import NArith ZArith List Bool Lia Permutation.
 Require Import Board Move GameOver Eval Search NegamaxSpec SearchGen SearchExact CancelFacts SearchNeg1 SearchAll1 SearchAll2 SearchPv1.
@@ -38,7 +38,7 @@ Let v := nm (S d') p.
 Lemma aa_loop_lines : forall n s g out ms j,
   SI s -> genst cfg p pm pvt s g ms j -> Permutation ms (all_moves p) -> (length (skipn (Z.to_nat j) ms) < n)%nat ->
   let r := aa_loop pinned basis cfg k (Z.of_nat (S d')) v pm pvt n s g out in
-  exists tails, snd r = out ++ tails /\ (cancelled k (fst r) = false -> Forall (legal_line basis p) tails).
+  exists tails, snd (fst r) = out ++ tails /\ (pinned = false \/ cancelled k (fst (fst r)) = false -> Forall (legal_line basis p) tails).
 Proof.
   induction n; intros s g out ms j HS G PERM HN; [lia|].
   cbv zeta. cbn [aa_loop].
@@ -58,14 +58,16 @@ Proof.
   fold v in R.
   destruct (srch pinned basis cfg k 40 false (set_fm s 0 m) q 1 (Z.of_nat (S d') - 1) pvt (- v - 1) (- v + 1) true) as [s1 [msc cv]].
   cbn [fst snd set_fm evals] in R, RL, MO. destruct R as (HS1 & Hmsc & VS).
+  destruct (negb pinned && cancelled k s1) eqn:EBRK.
+  { cbn [fst snd]. exists []. rewrite app_nil_r. split; [reflexivity|constructor]. }
   assert (REST : forall out1, let r := aa_loop pinned basis cfg k (Z.of_nat (S d')) v pm pvt n s1 g' out1 in
-            evals s1 <= evals (fst r) /\ exists tails, snd r = out1 ++ tails /\ (cancelled k (fst r) = false -> Forall (legal_line basis p) tails)).
+            evals s1 <= evals (fst (fst r)) /\ exists tails, snd (fst r) = out1 ++ tails /\ (pinned = false \/ cancelled k (fst (fst r)) = false -> Forall (legal_line basis p) tails)).
   { intros out1. cbv zeta. split; [apply (aa_loop_mono pinned basis cfg k Hnonull Hnoreduce Hnomc Pos Hclosed Hhint Hlive)|]. apply (IHn s1 g' out1 ms j' HS1 (G' s1) PERM ltac:(lia)). }
   destruct (negb (- cv =? v)) eqn:EV; [destruct (REST out) as (_ & R1); exact R1|].
   destruct (move_equal m pm); [destruct (REST out) as (_ & R1); exact R1|].
   destruct (REST (out ++ [m :: msc])) as (MONO & tails & B & C).
   exists ((m :: msc) :: tails). split; [rewrite B, <- app_assoc; reflexivity|].
-  intros NC. assert (NC1 : cancelled k s1 = false) by (apply (canc_le k s1 _ NC); exact MONO).
+  intros NC. assert (NC1 : cancelled k s1 = false) by (destruct NC as [EP|NC']; [rewrite EP in EBRK; exact EBRK|apply (canc_le k s1 _ NC'); exact MONO]).
   constructor; [|apply C; exact NC].
   apply negb_false_iff in EV. rewrite (VS NC1) in EV. apply Z.eqb_eq in EV.
   cbn [legal_line]. rewrite (try_ok basis p m (all_moves_okm p m Hm)) in T. destruct (mvp basis p m) as [q'| |]; try discriminate T.
@@ -75,7 +77,7 @@ Qed.
 Lemma aa_pass_lines s q0 : SI s -> try_move basis p pm = Some q0 -> In q0 (children basis p) ->
   let g0 := new_gen s None (pm :: pvt) 0 (Z.of_nat (S d')) p in
   let r := aa_loop pinned basis cfg k (Z.of_nat (S d')) v pm pvt (gfuel g0) s g0 [pm :: pvt] in
-  exists tails, snd r = (pm :: pvt) :: tails /\ (cancelled k (fst r) = false -> Forall (legal_line basis p) tails).
+  exists tails, snd (fst r) = (pm :: pvt) :: tails /\ (pinned = false \/ cancelled k (fst (fst r)) = false -> Forall (legal_line basis p) tails).
 Proof.
   intros HS T Hq0. cbv zeta.
   destruct (first_next pinned basis cfg p pm pvt s (Z.of_nat (S d')) q0 T) as (g1 & E & G1). cbv zeta in E.
@@ -86,6 +88,8 @@ Proof.
   cbv zeta in R. fold v in R.
   destruct (srch pinned basis cfg k 40 false (set_fm s 0 pm) q0 1 (Z.of_nat (S d') - 1) pvt (- v - 1) (- v + 1) true) as [s1 [msc cv]].
   cbn [fst snd] in R. destruct R as (HS1 & _ & _).
+  destruct (negb pinned && cancelled k s1).
+  { cbn [fst snd]. exists []. split; [reflexivity|constructor]. }
   rewrite move_equal_refl.
   set (ms := msof cfg p s1 (Z.of_nat (S d'))).
   assert (PERM : Permutation ms (all_moves p)) by apply msof_perm.
@@ -101,7 +105,7 @@ Hypothesis Hbound : forall d p, Pos d p -> MinEval <= c_eval cfg p <= MaxEval.
 Theorem analyze_all_lines_replay : forall s p sk pvs v d c,
   SI s -> (forall d, (1 <= d <= 16)%nat -> Z.of_nat d <= c_depth cfg -> Pos d p) ->
   analyze_all_gen pinned basis cfg k s p = (sk, (pvs, v, d, c)) ->
-  cancelled k sk = false -> Forall (legal_line basis p) pvs.
+  pinned = false \/ cancelled k sk = false -> Forall (legal_line basis p) pvs.
 Proof.
   intros s p sk pvs v d c HS HP H NC. rewrite analyze_all_unfold in H. unfold analyze_gen, analyze_depth in H.
   assert (ER : az_root pinned (az_start s) p = (0, [], 0)).
@@ -122,7 +126,7 @@ Proof.
   pose proof (aa_pass_lines dn ltac:(unfold dn; lia) p Hp EO pm pvt Hpvt s1 q0 HS1 T Hq0) as R. cbv zeta in R.
   rewrite <- ED in R. replace (S dn) with (Z.to_nat d1) in R by (unfold dn; lia).
   cbv zeta in H.
-  match type of H with context [aa_loop ?a ?b ?c ?d ?e ?f ?g ?h ?n ?s ?gg ?o] => destruct (aa_loop a b c d e f g h n s gg o) as [s2 out] end.
+  match type of H with context [aa_loop ?a ?b ?c ?d ?e ?f ?g ?h ?n ?s ?gg ?o] => destruct (aa_loop a b c d e f g h n s gg o) as [[s2 out] brk] end.
   cbn [fst snd] in R. clear ED. inversion H; subst. destruct R as (tails & -> & TL).
   constructor; [exact LPV|apply TL; exact NC].
 Qed.
